@@ -238,6 +238,9 @@ func getTopics(db *sql.DB) ([]topicsRecord, error) {
 			topics = append(topics, record)
 		}
 	}
+	if err := rows.Err(); err != nil {
+		return nil, err
+	}
 	return topics, nil
 }
 
@@ -262,7 +265,7 @@ func transformMessages(db *sql.DB, f func(*sql.Rows) error) error {
 			return err
 		}
 	}
-	return nil
+	return rows.Err()
 }
 
 func DB3ToMCAP(w io.Writer,
